@@ -325,6 +325,10 @@ struct LifeCase {
     /// Wakers of polls that returned Pending because the submission queue was full and that
     /// have not been invoked since (C03, second sentence).
     blocked_wakers: Vec<u32>,
+    /// Generator: an operation that was just woken from the blocked list and is to be blocked a second
+    /// time with the same waker (the queue is filled up again first), and a fresh operation to poll next.
+    reblock: Option<(usize, u32)>,
+    fill_pending: Option<usize>,
     /// outputs recorded by a `race`, replayed by the next ops: (op line, output lines)
     raced: Vec<(String, Vec<String>)>,
     /// a direct descriptor (made by `to_direct_descriptor` before the script starts)
@@ -402,6 +406,8 @@ impl LifeCase {
             lost_at_drop: 0,
             poisoned: false,
             blocked_wakers: Vec::new(),
+            reblock: None,
+            fill_pending: None,
             raced: Vec::new(),
             dfd,
             other: None,
@@ -797,6 +803,32 @@ impl Case for LifeCase {
         if self.steps_left == 0 && !self.ring_dropped {
             return Some("life rdrop".into());
         }
+        // "blocked, woken, blocked again with the same waker": fill the queue up again before the
+        // woken operation is polled
+        if let Some(n) = self.fill_pending.take() {
+            if n < self.ops.len() && self.ops[n].obj.is_some() && !self.ring_dropped {
+                return Some(format!("life poll {n} {}", n * 10));
+            }
+        }
+        if let Some((i, w)) = self.reblock {
+            let usable = !self.ring_dropped && i < self.ops.len() && self.ops[i].obj.is_some() && !self.has_submission(i);
+            if !usable {
+                self.reblock = None;
+            } else {
+                let room = simk::with_ring(self.rfd, |r, _| r.sq_entries.saturating_sub(r.sq_tail().wrapping_sub(r.sq_head())));
+                if room == 0 {
+                    self.reblock = None;
+                    return Some(format!("life poll {i} {w}"));
+                }
+                if self.ops.len() < self.max_ops + 3 {
+                    let n = self.ops.len();
+                    self.fill_pending = Some(n);
+                    let kind = *rng.pick(&["read", "write", "recv", "fsync"]);
+                    return Some(format!("life new {n} {kind}"));
+                }
+                self.reblock = None;
+            }
+        }
         let live: Vec<usize> = (0..self.ops.len()).filter(|i| self.ops[*i].obj.is_some()).collect();
         let inflight: Vec<usize> = simk::with_ring(self.rfd, |r, _| {
             r.inflight.iter().filter_map(|inf| self.ops.iter().position(|o| o.ud_inflight == Some(inf.sqe.user_data))).collect()
@@ -820,7 +852,7 @@ impl Case for LifeCase {
                 let w = if rng.chance(3, 4) { i as u64 * 10 } else { i as u64 * 10 + rng.range(1, 3) };
                 Some(format!("life poll {i} {w}"))
             }
-            2 => Some(format!("life drop {}", rng.pick(&live))),
+            2 => Some(format!("life {} {}", if rng.chance(1, 8) { "pdrop" } else { "drop" }, rng.pick(&live))),
             3 => {
                 let i = *rng.pick(&inflight);
                 let (res, flags) = self.gen_result(rng, i);
@@ -1023,7 +1055,10 @@ impl Case for LifeCase {
                 }
                 out.extend(lines);
             }
-            ["life", "drop", i] => {
+            ["life", dropkind @ ("drop" | "pdrop"), i] => {
+                // `pdrop`: the future is dropped while its thread unwinds from a panic (what an
+                // executor with `catch_unwind` does to a task that panicked); same effects as `drop`
+                let unwinding = *dropkind == "pdrop";
                 let Ok(i) = i.parse::<usize>() else { return vec!["bad-op".into()] };
                 if i >= self.ops.len() || self.ops[i].obj.is_none() {
                     return vec!["bad-op".into()];
@@ -1048,7 +1083,16 @@ impl Case for LifeCase {
                     self.feats.push(format!("kind/{}/drop-in-flight", self.ops[i].kind));
                 }
                 if let Some(obj) = obj {
-                    obj.discard();
+                    // (`ReceiveSignals` is discarded through `into_inner` in every script: see `discard`)
+                    if unwinding && self.ops[i].kind != "sigstream" {
+                        self.feats.push("drop-while-unwinding".into());
+                        let _ = util::catch(move || {
+                            let _dropped_by_unwinding = obj;
+                            panic!("task panicked");
+                        });
+                    } else {
+                        obj.discard();
+                    }
                 }
                 let mut lines = self.new_sqes(old_tail, None, Some(i));
                 for l in &lines {
@@ -1145,6 +1189,12 @@ impl Case for LifeCase {
                 // C03: a poll that entered the kernel wakes futures waiting for a submission slot
                 // when room is available afterwards.
                 let had_blocked = !self.blocked_wakers.is_empty();
+                if let Some(w) = self.blocked_wakers.iter().copied().find(|w| wakes.contains(w)) {
+                    let i = (w / 10) as usize;
+                    if i < self.ops.len() && self.ops[i].obj.is_some() && !self.has_submission(i) {
+                        self.reblock = Some((i, w));
+                    }
+                }
                 self.blocked_wakers.retain(|w| !wakes.contains(w));
                 if entered.is_some() && had_blocked && r.as_ref().is_ok_and(|x| x.is_ok()) {
                     let room = simk::with_ring(self.rfd, |r, _| r.sq_entries.saturating_sub(r.sq_tail().wrapping_sub(r.sq_head())));
